@@ -46,6 +46,11 @@ SeedsDeep == {
   <<162, 98, 97, 97, 1>>,               \* map(2) "aa":1, next key free (shorter key after longer)
   <<130, 129>>,                         \* nested arrays
   <<161, 216, 42>>,                     \* tagged map key
+  \* a well-formed link payload (CIDv1, raw, identity, empty digest) under tags that are 42 only modulo 256 / 65536,
+  \* under a non-minimal head for 42, and under a neighbour of 42
+  <<217, 1, 42, 69, 0, 1, 85, 0, 0>>, <<217, 2, 42, 69, 0, 1, 85, 0, 0>>, <<218, 0, 1, 0, 42, 69, 0, 1, 85, 0, 0>>,
+  <<217, 0, 42, 69, 0, 1, 85, 0, 0>>, <<216, 43, 69, 0, 1, 85, 0, 0>>, <<216, 42, 69, 0, 1, 85, 0, 0>>,
+  <<129, 217, 1, 42, 69, 0, 1, 85, 0, 0>>, <<161, 97, 97, 217, 255, 42, 69, 0, 1, 85, 0, 0>>,
   <<27, 0, 0, 0, 0>>, <<59, 255, 255, 255, 255, 255, 255>>,   \* 8-byte heads with free tails
   <<251, 127, 240, 0, 0, 0, 0>>, <<251, 127, 248, 0, 0, 0, 0>>, <<250, 127, 128, 0>>, <<250, 255, 192, 0>>,
   <<249>>, <<250, 63, 128, 0>>,
